@@ -419,6 +419,10 @@ class Prop:
             line = 'oas ' + hx(tree_text(t, 0, [], ''))
             self.treeq[line] = 'oast ' + ' '.join(tree_tokens(t))
             cs.append(Case(line, 'tree'))
+        # recursive user types, at the root and inside containers
+        for text in ['@r', '@l', '@l | @u', '{\n  "a": @r,\n  "b": @l\n}', '[\n  @r,\n  @l\n]', '{\n  "a": @r // {optional: true}\n}', '{\n  @t: @l\n}',
+                     '{ // {additionalProperties: "@r"}\n}', '1 // {or: ["@r", "integer"]}', '{\n  "k": [\n    @l | @r\n  ]\n}']:
+            cs.append(Case('oas ' + hx(text), 'recursive'))
         # `or` over names and rule-sets (no references): whatever Check() accepts must convert, and the example must be valid
         for text in or_forms(rng, 500 if tier == 'quick' else 8000):
             cs.append(Case('oas ' + hx(text), 'or-forms'))
